@@ -95,8 +95,10 @@ Definition run_raises (out : outcome) (fails : bool) : option xkind :=
 Definition do_run (cc : ctxcfg) (st : cstate) (cmd : string) (k : kwargs) : outcome :=
   run_model (cc_run cc) (cc_parent cc) (prefix_commands st cmd) k.
 
-(** [Context._sudo]: user and password are popped, [env] is only looked at; everything
-    else travels on to [runner.run]. *)
+(** [Context._sudo]: user and password are popped, [env] is only looked at, [watchers]
+    is replaced by a list (the given one -- None meaning not given, fix 2644606 -- or
+    the configured one, plus sudo's responder; C12's business); everything else
+    travels on to [runner.run]. *)
 Definition do_sudo (cc : ctxcfg) (st : cstate) (cmd : string) (user_kw : option oval)
            (k : kwargs) : outcome :=
   let user := match user_kw with Some u => u | None => cc_user cc end in
@@ -107,12 +109,6 @@ Definition do_sudo (cc : ctxcfg) (st : cstate) (cmd : string) (user_kw : option 
   run_model (cc_run cc) (cc_parent cc)
             (sudo_command (cc_prompt cc) user env (prefix_commands st cmd)) k.
 
-(** [watchers = list(kwargs.pop("watchers", self.config.run.watchers))]: an explicit
-    [watchers=None] is not "not given" here -- [list(None)] raises TypeError before
-    the runner is reached (F-C15b). *)
-Definition sudo_refuses (k : kwargs) : bool :=
-  match kw k Watchers with Some ONone => true | _ => false end.
-
 (** [exec_with cl]: (state afterwards, what [start] received call by call, the
     exception propagating).  [cl] says how each kind of block guards its clean-up. *)
 Fixpoint exec_with (cl : block -> clause) (cc : ctxcfg) (s : stmt) (st : cstate) {struct s}
@@ -121,8 +117,7 @@ Fixpoint exec_with (cl : block -> clause) (cc : ctxcfg) (s : stmt) (st : cstate)
   | SRun cmd k fails =>
       let out := do_run cc st cmd k in (st, [o_started out], run_raises out fails)
   | SSudo cmd u k fails =>
-      if sudo_refuses k then (st, [None], Some XType)
-      else let out := do_sudo cc st cmd u k in (st, [o_started out], run_raises out fails)
+      let out := do_sudo cc st cmd u k in (st, [o_started out], run_raises out fails)
   | SRaise x => (st, [], Some x)
   | SBlock b body =>
       let '(st2, out, r) :=
